@@ -367,12 +367,15 @@ Proof.
       intros s1 r _. destruct (_ || _); [apply pframe_refl|apply IH].
 Qed.
 
+Lemma acked_counts_as_sent_frame s : pframe s (acked_counts_as_sent s).
+Proof. unfold acked_counts_as_sent. destruct (seq_gt _ _); [pf_triv|apply pframe_refl]. Qed.
+
 Lemma process_all_frame s : sframe s (process_all_incoming_messages cci s).
 Proof.
   unfold process_all_incoming_messages.
   apply sframe_bind; [apply recv_loop_frame|].
   intros s1 [r early] _. cbv beta iota zeta.
-  match goal with |- context [truncate_front (v_tx ?x) _] =>
+  match goal with |- context [acked_counts_as_sent ?x] =>
     assert (F2 : pframe s1 x); [|abs_as x F2 s2] end.
   { destruct (_ || _); [|apply pframe_refl].
     destruct (ss_segs _); [destruct (our_fin_if_unacked _)|];
@@ -380,6 +383,8 @@ Proof.
   eapply sframe_weaken; [exact F2|].
   apply sframe_bind.
   { destruct (0 <? _); [|apply pframe_refl].
+    eapply sframe_weaken; [apply acked_counts_as_sent_frame|].
+    generalize (acked_counts_as_sent s2). intro s2'.
     destruct (truncate_front _ _) as [tx1 tr]. destruct tr; cbn [sframe]; [|pf_triv].
     destruct (wake_writer tx1) as [tx2 w]. eapply pframe_trans; [|apply pframe_add_wakes]. pf_triv. }
   intros s3 _ _. destruct (rv_phase _); try apply pframe_refl.
